@@ -4,7 +4,7 @@ func init() { registry["C09"] = checkC09 }
 
 func checkC09(e *RunEnv) *CheckResult {
 	paths := []string{"d/x", "d/y", "ad/x", "d.c", "a(b", "g"}
-	args := []string{"d/x", "d/y", "ad/x", "d.c", "a(b", "g", "d", "ad", "nope", "d/nope"}
+	args := []string{"d/x", "d/y", "ad/x", "d.c", "a(b", "g", "d", "ad", "nope", "d/nope", "d/", "./d", "d/.", "./g", "d//x"}
 	pairs := [][]string{{"d/x", "ad/x"}, {"d", "g"}, {"g", "nope"}, {"nope", "g"}}
 	var base []Step
 	base = append(base, seedS0()...)
@@ -14,7 +14,9 @@ func checkC09(e *RunEnv) *CheckResult {
 	seed1 := append(append([]Step{}, base...), Run("add", "d", "ad", "d.c", "a(b", "g"), Run("commit", "-m", "c1"))
 	seed2 := append(append([]Step{}, seed1...), Write("d/x", v2("d/x")), Run("add", "d/x"), Write("d/x", "d/x v3\n"), Delete("d/y"), Rmdir("ad"), Run("rm", "g"), Write("n", v1("n")), Run("add", "n"))
 	spec := &Spec{
-		Seeds: []Seed{{"all-committed", seed1}, {"mixed", seed2}},
+		Seeds: []Seed{{"all-committed", seed1}, {"mixed", seed2},
+			// a committed directory replaced by a file of the same name, and staged
+			{"dir-becomes-file", append(append([]Step{}, seedS0()...), Write("d/x/y", v1("d/x/y")), Write("g", v1("g")), Run("add", "d", "g"), Run("commit", "-m", "c1"), Write("d/x", "now a file\n"), Run("add", "d/x"))}},
 		Depth: e.pick(3, 4),
 		Steps: func(n *Node) []Step {
 			a := n.Abs()
@@ -52,6 +54,12 @@ func checkC09(e *RunEnv) *CheckResult {
 				return nil, true
 			}
 			pa, qa := pre.Abs(), post.Abs()
+			// whatever the staging area looked like: every staged path refers to a stored blob
+			for _, p := range qa.Fsck() {
+				if p.Class == "index-entries-have-blobs" {
+					return []Violation{{Oracle: "staged-entry-is-blob", Command: "restore", Tags: st.Tags, Detail: p.Msg}}, false
+				}
+			}
 			outs := Allowed(pa, st)
 			if outs == nil {
 				return nil, true
